@@ -104,9 +104,17 @@ where
         });
     }
 
-    let variable_fee = action
+    // The fee must be exactly `base + multiplier * variable component`: fail instead of charging
+    // a saturated amount if that does not fit into `u128`.
+    let total_fee = action
         .variable_component()
-        .saturating_mul(fees.multiplier());
-    let total_fee = fees.base().saturating_add(variable_fee);
+        .checked_mul(fees.multiplier())
+        .and_then(|variable_fee| fees.base().checked_add(variable_fee))
+        .ok_or_else(|| {
+            CheckedActionFeeError::internal(
+                &format!("failed calculating {} fees", action.name()),
+                Report::msg("fee calculation overflowed"),
+            )
+        })?;
     Ok(Some((fee_asset, total_fee)))
 }
